@@ -186,6 +186,25 @@ def run_stalls(pid, out, d, known, confirmed, pf, stats):
             out.violation(T.replay_of(pid, r, {"case": case, "step": step, "detail": detail}, {"broken": "correspondence model/implementation on the stall histories"}), nofail=True)
 
 
+def run_gcstress(pid, out, stats, seeds):
+    """C06, exploration (not a proof): commands that create, empty and delete keys from 8 goroutines while the
+    background gc runs every millisecond and explicit gc/flush passes are made; every command must complete"""
+    stats["gcstress_runs"] = 0
+    stats["gcstress_commands"] = 0
+    for sd in seeds:
+        rc, o = C.sh([C.VH, "gcstress", "--seed", str(sd)], env=C.go_env(), timeout=120)
+        stats["gcstress_runs"] += 1
+        line = next((l for l in o.splitlines() if l.startswith("GCSTRESS")), "GCSTRESS crashed " + o[-300:].replace("\n", " | "))
+        f = dict(x.split("=") for x in line.split()[2:] if "=" in x)
+        stats["gcstress_commands"] += int(f.get("done", 0))
+        if line.split()[1] != "ok":
+            out.violation({"property": pid, "gcstress": sd, "signature": "CONC/gc-deadlock",
+                           "what": "commands stopped completing while background gc / flush passes ran: " + line,
+                           "readable": ["vh gcstress --seed %d: 8 goroutines x 4000 commands (RPUSH, LPOP, DEL, INCR, RPOPLPUSH lk0 lk9, LLEN, explicit gc and flush) on 3 list keys and 3 string keys, GCDuration 1 ms" % sd],
+                           "replay_cmd": "bin/check %s --replay <this file>" % pid})
+            return
+
+
 def run(pid, tier, seed, replay=None):
     out = C.Outcome(pid, tier, seed)
     prep, pf, bad = PS._common_start(pid)
@@ -206,6 +225,9 @@ def run(pid, tier, seed, replay=None):
     stats = {"scenarios": 0, "ambiguous_skipped": 0, "replayed": 0, "model_diffs": 0, "grants": 0, "deadlocks": 0, "nonlinearizable": 0, "linearizable": 0}
     confirmed, dist, samples = {}, {}, []
     try:
+        if replay and "gcstress" in json.load(open(replay)):
+            run_gcstress(pid, out, stats, [json.load(open(replay))["gcstress"]])
+            return out.finish()
         if replay and "scenario" not in json.load(open(replay)):
             # a sequential stall history (trace-style replay)
             rp = json.load(open(replay))
@@ -293,6 +315,7 @@ def run(pid, tier, seed, replay=None):
                 samples.append(["keys " + v, "threads " + c, "grants " + s[:60], "outcome " + io["line"]])
         if pid == "C06" and not replay:
             run_stalls(pid, out, d, known, confirmed, pf, stats)
+            run_gcstress(pid, out, stats, range(seed * 100, seed * 100 + (24 if tier == "thorough" else 4)))
         for sig in sorted(confirmed):
             out.known_confirmed.append(known[sig])
         cov["evaluations"] = stats["grants"]
